@@ -110,6 +110,7 @@ def build_plan(facts: dict, rng, tier: str):
     S = Sets(facts, rng)
     pairs: typing.List[dict] = []
     n_random = 6 if tier == 'quick' else 120
+    covered: typing.Set[tuple] = set()
     for lang in ('c', 'cpp'):
         defaults = dict(facts['options'][lang])
         dom = facts['domain'][lang]
@@ -146,7 +147,10 @@ def build_plan(facts: dict, rng, tier: str):
                         kind = 'single'
                     pairs.append({'sup': bid, 'typ': sid, 'kind': kind})
                     pairs.append({'sup': sid, 'typ': bid, 'kind': kind})
-                    pairs.append({'sup': sid, 'typ': sid, 'kind': 'identical'})   # every documented value form must build against itself
+                    # every documented value form must build against itself (quick: once per value, thorough: from every base)
+                    if tier != 'quick' or (lang, k, repr(v)) not in covered:
+                        covered.add((lang, k, repr(v)))
+                        pairs.append({'sup': sid, 'typ': sid, 'kind': 'identical'})
         # shorthand spelled through the CLI must equal the explicit spelling
         if lang == 'cpp':
             for gname, g in facts['groups'][lang].items():
@@ -209,7 +213,8 @@ def build_plan(facts: dict, rng, tier: str):
             other = rng.choice(base_ids + rnd)
             pairs.append({'sup': sid, 'typ': other, 'kind': 'random'})
             pairs.append({'sup': other, 'typ': sid, 'kind': 'random'})
-            pairs.append({'sup': sid, 'typ': sid, 'kind': 'identical'})
+            if tier != 'quick' or rng.random() < 0.3:
+                pairs.append({'sup': sid, 'typ': sid, 'kind': 'identical'})
         # omit-serialization-support: no support header at all
         oid = S.add(lang, dict(defaults), [], {}, omit=True, kind='omit')
         pairs.append({'sup': None, 'typ': oid, 'kind': 'omit'})
